@@ -139,7 +139,14 @@ def rhd_params(cfg, rundir, name="run.param"):
         T += ["  diffuse field: true"]
     if cfg.get("turbulence"):
         T += ["  turbulent forcing: true"]
+    if cfg.get("mask"):
+        T += ["  use mask: true"]
     L += T
+    if cfg.get("mask"):
+        mk = cfg["mask"]   # RescaledIC mask: the only mask type that supports restarting
+        L += ["HydroMask:", "  type: RescaledIC", "  center: " + _vec(mk["center"], "m"), "  radius: %r m" % mk["radius"],
+              "  scale factor density: %r" % mk.get("fdens", 0.5), "  scale factor velocity: %r" % mk.get("fvel", 1.),
+              "  scale factor pressure: %r" % mk.get("fpres", 0.5), "  delta t: %r s" % mk.get("delta_t", 0.)]
     if cfg.get("turbulence"):
         tb = cfg["turbulence"]
         L += ["TurbulenceForcing:", "  minimum wave number: 1.", "  maximum wave number: 3.", "  peak forcing wave number: 2.",
